@@ -317,6 +317,13 @@ def run_cli(argv):
 
 
 def md_of(texts):
+    """one Markdown document: texts is the list of blocks of one recipe, or a list of such lists = several independent recipes"""
+    if texts and isinstance(texts[0], (list, tuple)):
+        parts = []
+        for gi, group in enumerate(texts):
+            for bi, t in enumerate(group):
+                parts.append("```%s\n%s\n```" % ("new-recipe" if (gi and bi == 0) else "recipe", t))
+        return "# T\n\n" + "\n\ntext\n\n".join(parts) + "\n"
     return "# T\n\n" + "\n\ntext\n\n".join("\n".join("    " + l for l in t.split("\n")) for t in texts) + "\n"
 
 
@@ -340,7 +347,9 @@ def check_cli(files, ignore):
                 want_lines += 1
                 continue
             try:
-                rs = compile_markdown(doc).recipes
+                # the independent recipes of the document, each compiled directly from its block texts
+                groups = texts if (texts and isinstance(texts[0], (list, tuple))) else [texts]
+                rs = [rg_compile(list(g)) for g in groups]
             except Exception:
                 want_lines += 1
                 continue
@@ -396,6 +405,10 @@ def oracle(run):
     for i in range(run.budget(40, 600)):
         n = rng.choice([1, 1, 2, 3])
         files = [rng.choice(dirty if rng.random() < 0.6 else clean) if rng.random() < 0.93 else "BROKEN" for _ in range(n)]
+        if i % 3 == 0:
+            # one document holding several independent recipes, some of them beginning with the very same block
+            a, b = rng.choice(dirty + clean), rng.choice(dirty + clean)
+            files[0] = rng.choice([[list(a), list(a)], [list(a), list(b)], [list(a), list(b), list(a)]])
         if i % 5 == 0 and n > 1:
             files[-1] = rng.choice(clean)            # a finding in an earlier file must not be forgotten
         ignore = rng.sample(kinds_all, rng.choice([0, 0, 1, 2, 3]))
